@@ -224,6 +224,11 @@ class Socks5Connection(ConnectionInterface):
 
         with self._connect_lock:
             if self._connection is None:
+                if self._connect_failed:
+                    # An earlier request failed to establish this connection, and
+                    # the pool has given up on it. Have the pool assign this request
+                    # to another connection, rather than connecting on this one.
+                    raise ConnectionNotAvailable()
                 stream = None
                 try:
                     # Connect to the proxy
